@@ -154,6 +154,19 @@ def _on_alarm(signum, frame):
     raise RequestTimeLimit("request still running after %.0f s" % REQUEST_TIME_LIMIT)
 
 
+class time_limit:
+    """with time_limit(): ...  -- raises RequestTimeLimit when the block runs longer than the limit"""
+
+    def __enter__(self):
+        if _alarm_ok:
+            signal.setitimer(signal.ITIMER_REAL, REQUEST_TIME_LIMIT)
+
+    def __exit__(self, *a):
+        if _alarm_ok:
+            signal.setitimer(signal.ITIMER_REAL, 0)
+        return False
+
+
 try:
     signal.signal(signal.SIGALRM, _on_alarm)
     _alarm_ok = threading.current_thread() is threading.main_thread()
